@@ -46,6 +46,7 @@ def main():
 
     evidence_path = os.path.join(common.VERIF, "evidence", "%s.json" % prop)
     obligations = []      # (name, discharged?)
+    leanchecker = None
     axioms = {}
     build_log = ""
     try:
@@ -64,6 +65,13 @@ def main():
             if ok_props:
                 axioms = common.audit_axioms(mod.LEAN_TARGETS, theorems)
             forbidden = common.grep_forbidden(common.lean_sources())
+            leanchecker = None
+            if ok_props and args.tier == "thorough":
+                # independent re-check of the compiled property modules by the toolchain's olean re-checker
+                rc_lc, out_lc = common.run(["lake", "env", "leanchecker"] + list(mod.LEAN_TARGETS), cwd=common.LEAN_DIR, timeout=1500)
+                leanchecker = "ok" if rc_lc == 0 else "FAILED: " + out_lc[-500:]
+                if rc_lc != 0:
+                    raise CheckBroken("leanchecker rejected %s: %s" % (mod.LEAN_TARGETS, out_lc[-800:]))
         if forbidden:
             raise CheckBroken("forbidden constructs in the Lean sources: %s" % forbidden[:5])
         bad_ax = {t: a for t, a in axioms.items() if not set(a) <= common.STD_AXIOMS}
@@ -162,6 +170,7 @@ def main():
         "broken": ctx.broken[:10],
         "known_findings_reproduced": sorted(seen),
         "notes": ctx.notes,
+        "leanchecker": leanchecker if args.tier == "thorough" else "not run in quick tier",
     }
     cov.update(ctx.extra)
     write_json(evidence_path, {
